@@ -206,6 +206,14 @@ def run(ctx):
     scripts = [tree_ops(t) + [("yamlrt",), ("yamlrtf",), ("yamltree",)] for t in trees]
     ctx.sample({"tree_ops": [pl.op_show(o) for o in scripts[len(scripts) // 2]][:8]})
 
+    # corpus first: fixed scripts ending in yamlrt / yamlrtf / yamltree
+    for name, script in c13.load_corpus("C14"):
+        d1, f1 = pl.find_failures(c_cmd, m_cmd, [script], env, nfields=_norm_c14, max_found=1)
+        for d in f1:
+            c13.report(ctx, d, "corpus/" + name, c_cmd, m_cmd, env, seen, _norm_c14)
+        ctx.obligation("tie:corpus/" + name, not f1, "")
+        ctx.traces_validated += 1
+
     # ------------------------------------------------------------------ a + b: library vs original, library vs model
     done, found = pl.find_failures(c_cmd, m_cmd, scripts, env, nfields=_norm_c14, max_found=6)
     for d in found:
